@@ -97,5 +97,6 @@ Qed.
 (** T1: the arm table extracted from server.rs is the signature of the hand-written [arm] *)
 Lemma arm_sigs_match :
   map (arm_sig recv_break_D recv_break_d) (map fst recv_arm_sigs) = recv_arm_sigs /\
-  copy_done_outside_copy_dropped = true /\ sync_in_copy_dropped = true.
+  copy_done_outside_copy_dropped = true /\ sync_in_copy_dropped = true /\
+  copy_done_release_checks_copy_mode = true.
 Proof. repeat split; vm_compute; reflexivity. Qed.
